@@ -215,6 +215,9 @@ pub assume_specification<T, E, U, F: FnOnce(T) -> core::result::Result<U, E>> [ 
 pub assume_specification<F: FnOnce() -> Ordering> [ Ordering::then_with ] (a: Ordering, f: F) -> (r: Ordering)
     requires a is Equal ==> call_requires(f, ()),
     ensures if a is Equal { call_ensures(f, (), r) } else { r == a };
+pub assume_specification<T, U, F: FnOnce(T) -> U> [ Option::<T>::map_or ] (o: Option<T>, d: U, f: F) -> (r: U)
+    requires o matches Some(x) ==> call_requires(f, (x,)),
+    ensures match o { Some(x) => call_ensures(f, (x,), r), None => r == d };
 pub uninterp spec fn trimmed(s: Seq<char>) -> Seq<char>;
 pub uninterp spec fn count_char(s: Seq<char>, c: char) -> nat;
 pub assume_specification [ str::trim ] (s: &str) -> (r: &str)
@@ -252,7 +255,7 @@ pub fn bytes_cmp(a: &Vec<u8>, b: &Vec<u8>) -> (r: Ordering)
     ensures r == lex_cmp(a@, b@)
 { a.cmp(b) }
 #[verifier::external_body]
-pub fn str_ne_string(a: &str, b: &String) -> (r: bool)
+pub fn str_ne_string(a: &str, b: &str) -> (r: bool)
     ensures r == (a@ != b@)
 { a != b }
 #[verifier::external_body]
